@@ -20,7 +20,11 @@ RULE = ('Tables of 0-40 atoms drawn from small value pools (so that conditions h
         'against text attributes; get_xyz / get_residues / get_chains on random selections; a malformed stream (unknown attribute / '
         'condition names, padded names, non-integer rowID values, letter-case variants of names). Every third query carries its condition '
         'values in NumPy scalars (np.int64 rowIDs, np.float64, np.str_), every fourth is issued twice on the same object (answers must '
-        'coincide); all queries of a table, well-formed and malformed, share ONE object. A case is non-trivial when distinct '
+        'coincide); all queries of a table, well-formed and malformed, share ONE object. '
+        'LONG LISTS: per run a few tables are queried with ONE condition listing 951-2200 values in an order that is not '
+        'the row order (serial descending with the cut after 950 values inside the table, rowID shuffled, serial shuffled with repeats, '
+        'name / resSeq shuffled; positive and negated, alone and with a second condition): once each, in input order. '
+        'A case is non-trivial when distinct '
         'by content and its answer is neither empty nor the whole table, or it is an error case. '
         'SQL TEXT TIE (extra checks): the statement text and the bound values the real get() hands to the sqlite3 cursor (recorded by a '
         'proxy around db.c in the harness) are compared with the text / values of the TRANSLATED builder (Gen/Sql.lean, driver op sql_get) for '
@@ -429,6 +433,47 @@ def cases(ctx):
             kws = [rand_cond(rng, k, n) for k in ks]
             cl = ','.join(rng.choice(COLNAMES) for _ in range(rng.randrange(1, 4)))
             out.append(mk_get(f'M{t}', rows, cl, kws, 'multi-model', nmodel=real_nm))
+    out += long_list_cases(ctx)
+    return out
+
+
+def long_list_cases(ctx):
+    """'each matching atom once, in input order' when the listed values are MANY (beyond the 950 values one statement carries) and
+    are listed in an order that is NOT the order of the rows: descending, shuffled, with repeats; the matching rows are spread over
+    the whole list (so over every piece the list may be cut into); positive and negated; alone and with a second condition"""
+    rng = ctx.rng
+    out = []
+    for t in range(ctx.scale(3, 12)):
+        n = rng.choice([12, 20, 27, 33, 40])
+        rows = rand_table(rng, n)
+        tid = f'L{t}'
+        cols = lambda: rng.choice(['rowID', 'serial', 'rowID,serial', 'serial,name,x', '*', 'name'])
+        second = lambda: [rand_cond(rng, rng.choice(['name', 'chainID', 'resName', 'element']), n, rows=rows)] if rng.random() < 0.4 else []
+        # serial descending; the table's serials 1..n sit at the END of the list, a cut after 950 values falls inside them
+        L = 950 + rng.randrange(1, n)
+        out.append(mk_get(tid, rows, cols(), [('serial', list(range(L, 0, -1)))] + second(), 'long-list-order'))
+        L = rng.randrange(1000, 2200)
+        out.append(mk_get(tid, rows, cols(), [('serial', list(range(L, 0, -1)))] + second(), 'long-list-order'))
+        # rowID shuffled (values present and absent), positive and negated
+        L = rng.randrange(951, 2000)
+        vals = list(range(-3, L - 3))
+        rng.shuffle(vals)
+        out.append(mk_get(tid, rows, cols(), [('rowID', vals)] + second(), 'long-list-order'))
+        cut = rng.randrange(5, n)
+        vals2 = [v for v in vals if not (cut <= v < cut + 4)]
+        out.append(mk_get(tid, rows, cols(), [('no_rowID', vals2)] + second(), 'long-list-order'))
+        # serial shuffled with repeated values (a row is returned once however often its value is listed)
+        L = rng.randrange(951, 1500)
+        vals = [rng.randrange(1, L) for _ in range(L)] + list(range(1, n + 1, 2))
+        rng.shuffle(vals)
+        out.append(mk_get(tid, rows, cols(), [('serial', vals)] + second(), 'long-list-order'))
+        # a text / an integer attribute with few distinct values in the table: the listed values that occur are far apart in the list
+        names = POOL['name'] + ['X%d' % i for i in range(rng.randrange(960, 1400))]
+        rng.shuffle(names)
+        out.append(mk_get(tid, rows, cols(), [(rng.choice(['name', 'no_name']), names)], 'long-list-order'))
+        seqs = list(range(-20, rng.randrange(960, 1400)))
+        rng.shuffle(seqs)
+        out.append(mk_get(tid, rows, cols(), [('resSeq', seqs)] + second(), 'long-list-order'))
     return out
 
 
